@@ -31,7 +31,8 @@ KEYWORDS = ['//', '!!!', 'WARNING', 'ERROR', 'PARTIAL EDITION', 'BATCH', 'number
             'PACKET_LENGTH', 'initialization time', 'RESULTS ARE GIVEN', ' number of batch',
             ' batch number :', 'simulation time', 'exploitation time', 'elapsed time',
             'Edition after batch number', '#' * 64, 'DUMP HOMOGENIZED MATERIAL',
-            'number of batches used', 'NORMAL COMPLETION']
+            'number of batches used', 'NORMAL COMPLETION',
+            'Type and parameters of random generator', 'COUNTER']
 FLAGS = {'simulation_time': 0, 'exploitation_time': 1, 'elapsed_time': 2}
 
 QUICK_EXAMPLES = [
@@ -454,6 +455,42 @@ def key_line_offsets(data, stride, rng, per_kind=None):
     return sorted(o for o in offs if 0 <= o <= len(data))
 
 
+END_FLAGS = (b'simulation time', b'exploitation time', b'elapsed time')
+
+
+def line_spans(data):
+    spans, pos = [], 0
+    for line in data.split(b'\n'):
+        spans.append((pos, min(pos + len(line) + 1, len(data))))
+        pos += len(line) + 1
+    return [sp for sp in spans if sp[0] < len(data) or sp == (len(data), len(data))]
+
+
+def boundary_and_tail_offsets(data, rng, max_boundaries=None, nrandom_lines=40):
+    '''every byte of the tail of the file after the last end flag (final
+    generator state, completion banner, last bytes), every byte of the lines
+    adjacent to each edition boundary (start flag and end flag +- 3 lines), and
+    for random lines elsewhere the cut at the line boundary without and with
+    the newline'''
+    spans = line_spans(data)
+    offs = set()
+    ends = [k for k, (a, b) in enumerate(spans) if any(f in data[a:b] for f in END_FLAGS)]
+    starts = [k for k, (a, b) in enumerate(spans) if b'RESULTS ARE GIVEN' in data[a:b]]
+    if ends:
+        offs.update(range(spans[ends[-1]][0], len(data) + 1))           # the whole tail
+    else:
+        offs.update(range(max(0, len(data) - 400), len(data) + 1))
+    marks = sorted(set(ends + starts))
+    if max_boundaries is not None and len(marks) > max_boundaries:
+        marks = sorted(set([marks[0], marks[-1]] + rng.sample(marks, max_boundaries - 2)))
+    for k in marks:
+        for j in range(max(0, k - 3), min(len(spans), k + 4)):
+            offs.update(range(spans[j][0], spans[j][1] + 1))
+    for a, b in rng.sample(spans, min(nrandom_lines, len(spans))):
+        offs.update((max(a, b - 1), b))                                   # without / with the newline
+    return offs
+
+
 def synth_scanner_listing(rng, idx):
     '''small synthetic listing exercising every branch of the scanner (the
     grammar does not accept these blocks: scanner + "parser's own error" only)'''
@@ -778,19 +815,26 @@ def build_jobs(ctx):
     for name, stride, npar in examples:
         data = open(os.path.join(common.REPO, DATA, name), 'rb').read()
         if quick:
-            offs = key_line_offsets(data, stride, rng, per_kind=2)
+            offs = sorted(set(key_line_offsets(data, stride, rng, per_kind=2))
+                          | boundary_and_tail_offsets(data, rng, max_boundaries=3))
             if name.startswith('ELECTRON'):
                 offs = sorted(set(offs) | {9932, 10547})      # corpus: the reproduced defects
-            poffs = sorted(set(rng.sample(offs, min(npar, len(offs)))) | {len(data)})
+            tail = sorted(o for o in boundary_and_tail_offsets(data, rng, max_boundaries=2, nrandom_lines=0))
+            poffs = sorted(set(rng.sample(offs, min(npar, len(offs))))
+                           | set(rng.sample(tail, min(8, len(tail)))) | {len(data)})
+            jobs.append((wdir, name.replace('.', '_'), data, offs, poffs, watchdog))
         else:
-            if len(data) <= 40000:
-                offs = list(range(0, len(data) + 1))
-            else:       # every byte of the lines the scanner interprets, every 11th elsewhere
-                offs = key_line_offsets(data, 11, rng)
+            # every byte of the file for the scanner, in chunks (one job and one Coq file each)
             pstride = 64 if len(data) <= 40000 else 256
-            poffs = list(range(rng.randrange(pstride), len(data), pstride)) + [len(data)]
-            offs = sorted(set(offs) | set(poffs))
-        jobs.append((wdir, name.replace('.', '_'), data, offs, poffs, watchdog))
+            tail = boundary_and_tail_offsets(data, rng, max_boundaries=None, nrandom_lines=0)
+            pall = sorted(set(range(rng.randrange(pstride), len(data), pstride)) | {len(data)}
+                          | set(rng.sample(sorted(tail), min(60, len(tail)))))
+            chunk = 25000
+            for num, lo in enumerate(range(0, len(data) + 1, chunk)):
+                offs = list(range(lo, min(lo + chunk, len(data) + 1)))
+                poffs = [o for o in pall if lo <= o < lo + chunk]
+                jobs.append((wdir, name.replace('.', '_') + (f'__{num}' if num else ''), data, offs, poffs,
+                             watchdog))
         ctx.count('example_listings')
     # corpus: the defects of the pinned tree
     data = open(os.path.join(common.REPO, DATA, 'pertu_covariances.d.res.ceav5'), 'rb').read()
@@ -798,7 +842,8 @@ def build_jobs(ctx):
     jobs.append((wdir, 'corpus_pertu_endflag', data, list(range(iend - 30, iend + 3)),
                  list(range(iend - 4, iend + 2)), watchdog))
     for name, data in edition_variants(rng, common.REPO):
-        offs = key_line_offsets(data, 700 if quick else 16, rng, per_kind=2 if quick else None)
+        offs = sorted(set(key_line_offsets(data, 700 if quick else 16, rng, per_kind=2 if quick else None))
+                      | boundary_and_tail_offsets(data, rng, max_boundaries=3 if quick else None))
         poffs = sorted(rng.sample(offs, min(25 if quick else 600, len(offs)))) + [len(data)]
         jobs.append((wdir, name, data, offs, poffs, watchdog))
         ctx.count('edition_variant_listings')
@@ -807,7 +852,8 @@ def build_jobs(ctx):
         name, data = synth_scanner_listing(rng, idx)
         offs = list(range(0, len(data) + 1))
         if quick and len(offs) > 50:
-            offs = sorted(set(rng.sample(offs, 50)) | set(key_line_offsets(data, 0, rng, per_kind=0)))
+            offs = sorted(set(rng.sample(offs, 50)) | set(key_line_offsets(data, 0, rng, per_kind=0))
+                          | boundary_and_tail_offsets(data, rng, max_boundaries=2, nrandom_lines=5))
         poffs = sorted(rng.sample(offs, min(3, len(offs))))
         jobs.append((wdir, name, data, offs, poffs, watchdog))
         ctx.count('synthetic_scanner_listings')
@@ -1067,7 +1113,8 @@ def replay(ctx, path):
     if case.get('data_hex'):
         blob = bytes.fromhex(case['data_hex'])
     else:
-        cand = [n for n in os.listdir(os.path.join(common.REPO, DATA)) if n.replace('.', '_') == name]
+        cand = [n for n in os.listdir(os.path.join(common.REPO, DATA))
+                if n.replace('.', '_') == name.split('__')[0]]
         if name == 'corpus_pertu_endflag':
             cand = ['pertu_covariances.d.res.ceav5']
         if not cand:
